@@ -18,3 +18,4 @@ with cf.ThreadPoolExecutor(8) as ex:
         print(f.result())
 import f8ctv
 print(f8ctv.dumper_obj('asan'), f8ctv.pch_dir('asan'))
+print(vlib.build_harness('codec', need_schema=True, schema=vlib.FIX44, extra_flags=vlib.FIX44_FLAGS))
